@@ -1,6 +1,6 @@
 From Coq Require Import List Arith Lia Bool.
 Import ListNotations.
-From SV Require Import c15.Conc c15.Model_C15 c15.Proofs_C15 c15.Properties_C15.
+From SV Require Import c15.Conc c15.Model_C15 c15.Proofs_C15 c15.Proofs_C15_Excl c15.Properties_C15.
 
 Check (C15_single_stopper : forall progs sched s1 s2 x1 x2,
   let w := run cfg_fixed sched (init progs) in
@@ -27,9 +27,29 @@ Check (eq_refl : Excl15 = fun w => forall s p k, pc (th w s) = Stw (SAccess p k)
 Check (eq_refl : safe_to_access = fun x =>
   match pc x with PollParked | SpPub | SpJoin | SpParked => paused x | _ => false end).
 Check (eq_refl : f10_progs = [[AAlloc true]; [APrim; ACompute]]).
+Check (C15_mutual_exclusion_outside_known : forall progs sched,
+  window_free cfg_fixed sched (init progs) = true -> Excl15 (run cfg_fixed sched (init progs))).
+Check (C15_all_stopped_after_first_pass : forall progs sched h s t,
+  window_free cfg_fixed sched (init progs) = true ->
+  let w := run cfg_fixed sched (init progs) in
+  pc (th w h) = Stw s -> covered s t = true -> t <> h -> reg (th w t) = true -> is_done (pc (th w t)) = false ->
+  safe_to_access (th w t) = true).
+Check (C15_window_free_nonvacuous :
+  window_free cfg_fixed wf_sched (init wf_progs) = true /\
+  pc (th (run cfg_fixed (firstn 22 wf_sched) (init wf_progs)) 0) = Stw (SAccess 1 1) /\
+  pc (th (run cfg_fixed (firstn 28 wf_sched) (init wf_progs)) 0) = Stw (SAccess 2 1) /\
+  window_free cfg_fixed (firstn 28 wf_sched) (init wf_progs) = true /\
+  env_gen (run cfg_fixed wf_sched (init wf_progs)) = 1).
+Check (eq_refl : in_known_window = fun w x =>
+  (is_exit_checked (pc x) && paused x) || (stw_any w && live x && negb (reg x))).
+Check (eq_refl : known_window = fun w => existsb (in_known_window w) (ths w)).
+Check (eq_refl : is_exit_checked = fun p => match p with SpExitChecked | PollExitChecked => true | _ => false end).
 Print Assumptions C15_single_stopper.
 Print Assumptions C15_flags_cleared.
 Print Assumptions C15_parked_released.
 Print Assumptions C15_stw_refuted.
 Print Assumptions C15_stw_refuted_thread_runs.
 Print Assumptions C15_global_visible_refuted_spawn_window.
+Print Assumptions C15_mutual_exclusion_outside_known.
+Print Assumptions C15_all_stopped_after_first_pass.
+Print Assumptions C15_window_free_nonvacuous.
